@@ -45,8 +45,13 @@ def run_child(base, prog, actions, gate=None, store_kind="local"):
     store = {"kind": store_kind, "internal_dir": os.path.join(base, "internal"), "data_dir": os.path.join(base, "data")}
     payload = {"root": src, "pkg": prog["pkg"], "store": store, "actions": actions}
     if gate:
-        payload["gate"] = gate
-    return C.run_driver_raw("drive_prog.py", payload)
+        payload["gate"] = dict(gate, after_open=True)      # "the file was just created / truncated" is a crash point of its own
+    return C.run_driver_raw("drive_prog.py", payload, extra_env=EXTRA_ENV[0])
+
+
+# The environment of the evaluating processes (a second dimension of the crash-point enumeration): None, or the variables that place the
+# system scratch directory (tempfile.gettempdir()) on ANOTHER FILE SYSTEM than the store - a store on a data volume, /tmp on tmpfs.
+EXTRA_ENV = [None]
 
 
 def scenario(name):
@@ -130,10 +135,11 @@ def run(rep, tier, seed, proof_ok):
     rep.rule = ("crash-point enumeration on the real code: for the scenarios {first keep on a cold store incl. store creation, re-keep "
                 "with changed code on a populated store}, each with a kept root, a nested dds.keep with an argument and a data "
                 "function, the evaluating process is killed (os._exit) before every intercepted file-system operation (stat, mkdir, "
-                "open, write, close, remove, symlink, replace, ...) and in the middle of every write; then a new process (a) evaluates "
+                "open, write, close, remove, symlink, replace, ...), right after every open for writing returned, and in the middle of every write; then a new process (a) evaluates "
                 "the same pipeline and loads all paths: results must equal the uncrashed run, no exception; (b) without re-evaluation "
                 "loads the paths committed before the crash: old or new complete value; exhaustive over the operation indices of the "
-                "traced uncrashed run; payloads are pickled tuples.  Second dimension, the identity of the processes (c06_ident.py): "
+                "traced uncrashed run; payloads are pickled tuples; the whole enumeration is repeated with the system scratch directory (TMPDIR) on "
+                "ANOTHER FILE SYSTEM than the store (when the machine has one: found by st_dev / EXDEV probe).  Second dimension, the identity of the processes (c06_ident.py): "
                 "crash HISTORIES of several process lifetimes on one store (forked children of drive_c06srv.py, each with the code "
                 "version and the pid the history gives it: os.getpid is what the history says), checked against the values of an "
                 "uncrashed evaluation on a bare store (= plain execution without dds): (A) every crash point of both scenarios with "
@@ -168,52 +174,63 @@ def run(rep, tier, seed, proof_ok):
                         "before the next interposed operation leaves)"]
     total, crashed = 0, 0
     real = {}
-    for name in ("first-keep", "re-keep-changed"):
-        setup, prog = scenario(name)
-        template = None
-        old_vals = {}
-        tdir = tempfile.mkdtemp(prefix="c06t_", dir=C.scratch_dir())
-        if setup:
-            rc, res, out = run_child(tdir, setup, [CALL] + [{"a": "load", "path": p} for p in PATHS])
-            old_vals = {p: r["out"] for p, r in zip(PATHS, res[1:])}
-            template = tdir
-        # uncrashed traced run on a copy, to learn the operations and the expected results
-        ref = tempfile.mkdtemp(prefix="c06r_", dir=C.scratch_dir())
-        if template:
-            for sub in ("internal", "data"):
-                shutil.copytree(os.path.join(template, sub), os.path.join(ref, sub), symlinks=True)
-        rc, res, out = run_child(ref, prog, [CALL] + [{"a": "load", "path": p} for p in PATHS], gate={"mode": "trace"})
-        expected = res[0]["out"]
-        new_vals = {p: r["out"] for p, r in zip(PATHS, res[1:4])}
-        real[I.crash_version(name)] = {"expected": expected, "vals": new_vals}
-        trace = [e for e in res[-1]["gate_log"]]
-        # only the operations of the evaluation itself (the loads that follow are probes)
-        n_eval = max(e[0] for e in trace if e[1] in ("symlink", "replace", "write", "mkdir", "remove", "close", "open")) + 1
-        ops = [e for e in trace if e[0] <= n_eval]
-        rep.extra.setdefault("traces", {})[name] = [e[1:3] for e in ops][:80]
-        jobs = []
-        for e in ops:
-            jobs.append((name, template, e[0], False, expected, old_vals, new_vals))
-            if e[1] == "write":
-                jobs.append((name, template, e[0], True, expected, old_vals, new_vals))
-        with cf.ThreadPoolExecutor(max_workers=C.NPROC) as ex:
-            results = list(ex.map(crash_case, jobs))
-            lres = list(ex.map(load_only_case, [(j[0], j[1], j[2], j[3], j[5], j[6]) for j in jobs])) if template else []
-        for j, r in list(zip(jobs, results)) + list(zip(jobs, lres)):
-            total += 1
-            rep.case(json.dumps([name, r["i"], r["half"], "load-only" if r in lres else "re-evaluate"]), nontrivial=r.get("crashed", False))
-            if not r.get("crashed"):
-                continue
-            crashed += 1
-            op = next(e for e in ops if e[0] == r["i"])
-            for kind, detail in r.get("problems", []):
-                what = f"{op[1]}{'-torn' if r['half'] else ''}:{'meta' if str(op[2]).endswith('.meta') else ('blob' if '/blobs/' in str(op[2]) else ('link' if str(op[2]).startswith('D:') or op[1] == 'symlink' else 'dir'))}"
-                rep.violation(f"crash:{kind.split(':')[0]}:{what}", f"scenario {name}: process killed before operation {r['i']} {op[1:4]}"
-                              f"{' (in the middle of the write)' if r['half'] else ''}: {kind} -> {detail}",
-                              {"scenario": name, "crash_at": r["i"], "half": r["half"], "operation": op, "problem": kind, "detail": detail})
-        shutil.rmtree(ref, ignore_errors=True)
-        shutil.rmtree(tdir, ignore_errors=True)
-    rep.extra["input_distribution"] = {"crash_runs": total, "actually_crashed": crashed}
+    import c16_fs
+    second = c16_fs.second_file_system()
+    envs = [("default", None)]
+    if second:
+        envs.append(("tmpdir-on-another-file-system", {"TMPDIR": second, "TEMP": second, "TMP": second}))
+    for envname, extra in envs:
+        EXTRA_ENV[0] = extra
+        envtag = "" if extra is None else ":" + envname
+        envdesc = "" if extra is None else f" [TMPDIR={second}, another file system than the store]"
+        for name in ("first-keep", "re-keep-changed"):
+            setup, prog = scenario(name)
+            template = None
+            old_vals = {}
+            tdir = tempfile.mkdtemp(prefix="c06t_", dir=C.scratch_dir())
+            if setup:
+                rc, res, out = run_child(tdir, setup, [CALL] + [{"a": "load", "path": p} for p in PATHS])
+                old_vals = {p: r["out"] for p, r in zip(PATHS, res[1:])}
+                template = tdir
+            # uncrashed traced run on a copy, to learn the operations and the expected results
+            ref = tempfile.mkdtemp(prefix="c06r_", dir=C.scratch_dir())
+            if template:
+                for sub in ("internal", "data"):
+                    shutil.copytree(os.path.join(template, sub), os.path.join(ref, sub), symlinks=True)
+            rc, res, out = run_child(ref, prog, [CALL] + [{"a": "load", "path": p} for p in PATHS], gate={"mode": "trace"})
+            expected = res[0]["out"]
+            new_vals = {p: r["out"] for p, r in zip(PATHS, res[1:4])}
+            if envname == "default":
+                real[I.crash_version(name)] = {"expected": expected, "vals": new_vals}
+            trace = [e for e in res[-1]["gate_log"]]
+            # only the operations of the evaluation itself (the loads that follow are probes)
+            n_eval = max(e[0] for e in trace if e[1] in ("symlink", "replace", "write", "mkdir", "remove", "close", "open")) + 1
+            ops = [e for e in trace if e[0] <= n_eval]
+            rep.extra.setdefault("traces", {})[name + envtag] = [e[1:3] for e in ops][:80]
+            jobs = []
+            for e in ops:
+                jobs.append((name, template, e[0], False, expected, old_vals, new_vals))
+                if e[1] == "write":
+                    jobs.append((name, template, e[0], True, expected, old_vals, new_vals))
+            with cf.ThreadPoolExecutor(max_workers=C.NPROC) as ex:
+                results = list(ex.map(crash_case, jobs))
+                lres = list(ex.map(load_only_case, [(j[0], j[1], j[2], j[3], j[5], j[6]) for j in jobs])) if template else []
+            for j, r in list(zip(jobs, results)) + list(zip(jobs, lres)):
+                total += 1
+                rep.case(json.dumps([name + envtag, r["i"], r["half"], "load-only" if r in lres else "re-evaluate"]), nontrivial=r.get("crashed", False))
+                if not r.get("crashed"):
+                    continue
+                crashed += 1
+                op = next(e for e in ops if e[0] == r["i"])
+                for kind, detail in r.get("problems", []):
+                    what = f"{op[1]}{'-torn' if r['half'] else ''}:{'meta' if str(op[2]).endswith('.meta') else ('blob' if '/blobs/' in str(op[2]) else ('link' if str(op[2]).startswith('D:') or op[1] == 'symlink' else 'dir'))}"
+                    rep.violation(f"crash{envtag}:{kind.split(':')[0]}:{what}", f"scenario {name}{envdesc}: process killed before operation {r['i']} {op[1:4]}"
+                                  f"{' (in the middle of the write)' if r['half'] else ''}: {kind} -> {detail}",
+                                  {"scenario": name, "env": envname, "crash_at": r["i"], "half": r["half"], "operation": op, "problem": kind, "detail": detail})
+            shutil.rmtree(ref, ignore_errors=True)
+            shutil.rmtree(tdir, ignore_errors=True)
+    EXTRA_ENV[0] = None
+    rep.extra["input_distribution"] = {"crash_runs": total, "actually_crashed": crashed, "environments": [e[0] for e in envs]}
     rep.sample({"scenario": "first-keep", "crash_before_operation": 13, "half_write": True})
     t0 = time.time()
     try:
@@ -363,7 +380,11 @@ def replay(path):
         print("problems:", res["problems"] or "none")
         return 1 if res["problems"] else 0
     setup, prog = scenario(r["scenario"])
-    base = tempfile.mkdtemp(prefix="c06replay_")
+    if r.get("env", "default") != "default":
+        import c16_fs
+        second = c16_fs.second_file_system()
+        EXTRA_ENV[0] = {"TMPDIR": second, "TEMP": second, "TMP": second} if second else None
+    base = tempfile.mkdtemp(prefix="c06replay_", dir=C.scratch_dir())
     if setup:
         run_child(base, setup, [CALL])
     rc, res, out = run_child(base, prog, [CALL], gate={"mode": "crash", "crash_at": r["crash_at"], "half": r["half"]})
